@@ -17,8 +17,9 @@ Each illegal declaration is rejected by a guard that *dominates* the state write
 """
 import ast
 
+from rsx.flow import clauses, clauses_of, _add_clauses
 from .common import (AnalysisError, Finding, RuleResult, MustFlow, ntext, walk_no_nested,
-                     body_stmts, is_self_attr)
+                     body_stmts, is_self_attr, single_defs, expand_locals)
 
 RULE = 'R10'
 TEXT = ('re-declared dependencies, integer adaptation, re-declared scenarios, adaptation after '
@@ -28,17 +29,21 @@ P = {'props': ['C13']}
 
 
 class _Guards(MustFlow):
-    def __init__(self, sink_pred, synth=()):
+    """sinks are visited with the condition clauses (rsx.flow) of the tests passed so far; tests are
+    also read with their single-definition locals expanded (a hoisted sub-expression is the same test)"""
+
+    def __init__(self, fn, sink_pred):
         super().__init__()
+        self.fn = fn
+        self.defs = single_defs(fn)
         self.sink_pred = sink_pred
         self.sinks = []
-        self.synth = synth        # [(pred(text, branch), alias)]: either condition establishes `alias`
 
     def refine(self, test, branch, state):
         state = super().refine(test, branch, state)
-        for pred, alias in self.synth:
-            if pred(ntext(test), branch):
-                state = state | {('cond', False, alias)}
+        ex = expand_locals(self.fn, test, defs=self.defs)
+        if ntext(ex) != ntext(test):
+            state = _add_clauses(state, clauses(ex, branch))
         return state
 
     def visit(self, node, state):
@@ -47,30 +52,31 @@ class _Guards(MustFlow):
 
 
 def has_guard(state, pred):
-    """some cond fact (test text, branch) on the surviving side satisfies pred(text, branch)"""
-    for f in state:
-        if isinstance(f, tuple) and f[0] == 'cond' and pred(f[2], f[1]):
-            return True
-    return False
+    """some known clause satisfies pred(clause); clause = frozenset of (atom text, polarity)"""
+    return any(pred(c) for c in clauses_of(state))
+
+
+def unit(pred_lit):
+    """guard given as a predicate on a single literal (atom, polarity)"""
+    def p(c):
+        return len(c) == 1 and pred_lit(*next(iter(c)))
+    return p
 
 
 def none_guard(attr):
-    def p(text, branch):
-        return (text.endswith('.%s is not None' % attr) and branch is False) or \
-               (text.endswith('.%s is None' % attr) and branch is True)
-    return p
+    # the surviving side knows  <x>.attr is None
+    return unit(lambda a, pol: a.endswith('.%s is None' % attr) and pol is True)
 
 
 def any_guard(field):
-    def p(text, branch):
-        return field in text and text.endswith('.any()') and branch is False
-    return p
+    # the surviving side knows  not <field..>.any()
+    return unit(lambda a, pol: field in a and a.endswith('.any()') and pol is False)
 
 
-def check(repo, res, fq, sink_desc, sink_pred, guards, synth=()):
+def check(repo, res, fq, sink_desc, sink_pred, guards):
     fi = repo.func(fq)
     res.functions.add(fq)
-    fl = _Guards(sink_pred, synth)
+    fl = _Guards(fi.node, sink_pred)
     fl.run(body_stmts(fi))
     if not fl.sinks:
         raise AnalysisError('%s: %s not found (anchor vanished)' % (fq, sink_desc))
@@ -99,7 +105,7 @@ def run(repo):
            ('dependency already declared (self.depend[..].any())', any_guard('self.depend['))])
     check(repo, res, 'lp.DecVarSub.affadapt', 'the store into self.rand_adapt', store_into('rand_adapt'),
           [('integer decision (self.vtype in [B, I])',
-            lambda t, b: 'self.vtype' in t and "'B'" in t and "'I'" in t and b is False),
+            unit(lambda a, pol: 'self.vtype' in a and "'B'" in a and "'I'" in a and pol is False)),
            ('dependency already declared (self.rand_adapt[..].any())', any_guard('self.rand_adapt[')),
            ('model already formulated (var_ev_list is not None)', none_guard('var_ev_list'))])
 
@@ -111,17 +117,22 @@ def run(repo):
     ev = repo.func('lp.DecVar.evtadapt')
     # every pass through the loop over the declared scenarios either removes the scenario from the
     # default event -- after a membership test has succeeded -- or raises
-    class _Rem(MustFlow):
+    ev_defs = single_defs(ev.node)
+
+    class _Rem(_Guards):
+        def __init__(self):
+            super().__init__(ev.node, lambda n: False)
+
         def transfer(self, node, state):
+            node = expand_locals(ev.node, node, defs=ev_defs)
             if any(isinstance(x, ast.Call) and ntext(x.func) == 'self.event_adapt[0].remove' for x in ast.walk(node)):
-                tested = any(isinstance(f, tuple) and f[0] == 'cond' and 'self.event_adapt[0]' in f[2] and
-                             ((f[1] is True and ' in ' in f[2] and ' not in ' not in f[2]) or
-                              (f[1] is False and ' not in ' in f[2])) for f in state)
+                tested = any(len(c) == 1 and next(iter(c))[1] is True and
+                             next(iter(c))[0].endswith(' in self.event_adapt[0]') for c in clauses_of(state))
                 if tested:
                     return state | {'removed'}
             return state
     loops = [n for n in walk_no_nested(ev.node) if isinstance(n, ast.For) and
-             any('self.event_adapt[0]' in ntext(s) for s in n.body)]
+             any('self.event_adapt[0]' in ntext(expand_locals(ev.node, s, defs=ev_defs)) for s in n.body)]
     ok = bool(loops)
     for lp_ in loops:
         o = _Rem().run(lp_.body)
@@ -138,13 +149,18 @@ def run(repo):
     res.functions.add(rr.fq)
 
     def uses_affine_part(node):
-        return isinstance(node, ast.Assign) and 'raf_linear @ drule.affine' in ntext(node.value)
+        return isinstance(node, ast.Assign) and isinstance(node.value, ast.BinOp) and \
+            isinstance(node.value.op, ast.MatMult) and ntext(node.value.right).endswith('.affine') and \
+            'raf' in ntext(node.value.left)
+
+    def excluded(c):
+        # either there is no random coefficient row, or the rule has no random part there: a clause of
+        # negative literals, one of which is about the rule's .raffine[..]
+        return all(pol is False for _a, pol in c) and any('.raffine[' in a for a, _p in c)
     check(repo, res, 'dro.Model.ro_to_roc', 'raf_linear @ drule.affine (random coefficient times the rule)',
           uses_affine_part,
           [('the rule depends on randomness there (drule.raffine[row_ind] non-zero), or there is no '
-            'random coefficient row', lambda t, b: t == '<adaptive-times-random excluded>' and b is False)],
-          synth=[(lambda t, b: 'drule.raffine[row_ind]' in t and b is False, '<adaptive-times-random excluded>'),
-                 (lambda t, b: t == 'len(row_ind) > 0' and b is False, '<adaptive-times-random excluded>')])
+            'random coefficient row', excluded)])
     # parent mask update
     fa = repo.func('lp.DecVarSub.affadapt')
 
